@@ -1018,6 +1018,11 @@ step8:
 		goto step8;
 	// шаг 12: s <- (e + dr) mod order
 	wwFrom(s, privkey, order_no);
+	if (wwIsZero(s, order_n) || wwCmp(s, ec->order, order_n) >= 0)
+	{
+		dstuEcClose(ec);
+		return ERR_BAD_PRIVKEY;
+	}
 	zzMulMod(s, s, r, ec->order, order_n, stack);
 	zzAddMod(s, s, e, ec->order, order_n);
 	// шаг 13: если s = 0, то повторить генерацию
